@@ -44,7 +44,7 @@ def escape_path(path):
 class Entry:
     """tag, path (full semantic path, AUX includes files/), size, checksums,
     ts (TIMESTAMP only).  `raw` is the path token as written for AUX."""
-    __slots__ = ('tag', 'path', 'size', 'checksums', 'ts')
+    __slots__ = ('tag', 'path', 'size', 'checksums', 'ts', 'ck_reversed')
 
     def __init__(self, tag, path=None, size=None, checksums=None, ts=None):
         self.tag = tag
@@ -52,6 +52,7 @@ class Entry:
         self.size = size
         self.checksums = checksums
         self.ts = ts
+        self.ck_reversed = False
 
     def key(self):
         return (self.tag, self.path, self.size,
@@ -74,7 +75,10 @@ class Entry:
         if self.tag == 'IGNORE':
             return f'IGNORE {escape_path(p)}'
         toks = [self.tag, escape_path(p), str(self.size)]
-        for k in sorted(self.checksums):
+        keys = sorted(self.checksums)
+        if getattr(self, 'ck_reversed', False):
+            keys.reverse()      # (a correct line, just not in name order)
+        for k in keys:
             toks += [k, self.checksums[k]]
         return ' '.join(toks)
 
